@@ -50,34 +50,67 @@ def encExtPrefix : WL → WL → Bool
   | .cons _ _, .nil => false
 end
 
+def WL.append : WL → WL → WL
+  | .nil, b => b
+  | .cons t ts, b => .cons t (ts.append b)
+
+/-- a product inside a product contributes its components: `struct { a: (u8, u16), b: u32 }` is the byte
+    sequence `u8 u16 u32` -/
+def spliceProds : WL → WL
+  | .nil => .nil
+  | .cons (.prod us) ts => us.append (spliceProds ts)
+  | .cons t ts => .cons t (spliceProds ts)
+
 mutual
-/-- the two grammars describe the same bytes (reading strategy, size limits and capacities aside) -/
-def wireEqv : W → W → Bool
+/-- products flattened, one-component products replaced by their component (names and nesting of structs and
+    tuples are not part of the bytes) -/
+def normW : W → W
+  | .seq m t => .seq m (normW t)
+  | .opt t => .opt (normW t)
+  | .res a b => .res (normW a) (normW b)
+  | .prod ts =>
+    match spliceProds (normWL ts) with
+    | .cons t .nil => t
+    | fs => .prod fs
+  | .rep n b t => .rep n b (normW t)
+  | .tagged w alts => .tagged w (normWL alts)
+  | w => w
+def normWL : WL → WL
+  | .nil => .nil
+  | .cons t ts => .cons (normW t) (normWL ts)
+end
+
+mutual
+/-- structural comparison of two grammars (reading strategy, size limits and capacities aside) -/
+def wireEqvS : W → W → Bool
   | .fixed k, .fixed k' => k == k'
   | .bool, .bool => true
   | .char, .char => true
   | .str _, .str _ => true
-  | .seq _ t, .seq _ t' => wireEqv t t'
-  | .opt t, .opt t' => wireEqv t t'
-  | .res a b, .res a' b' => wireEqv a a' && wireEqv b b'
-  | .prod ts, .prod ts' => wireEqvL ts ts'
-  | .rep n _ t, .rep n' _ t' => (n == n') && wireEqv t t'
-  | .tagged w alts, .tagged w' alts' => (w == w') && wireEqvPrefix alts alts'
+  | .seq _ t, .seq _ t' => wireEqvS t t'
+  | .opt t, .opt t' => wireEqvS t t'
+  | .res a b, .res a' b' => wireEqvS a a' && wireEqvS b b'
+  | .prod ts, .prod ts' => wireEqvSL ts ts'
+  | .rep n _ t, .rep n' _ t' => (n == n') && wireEqvS t t'
+  | .tagged w alts, .tagged w' alts' => (w == w') && wireEqvSPrefix alts alts'
   | .canary, .canary => true
   | .sysTime, .sysTime => true
   -- a `SystemTime` is written as one 16 byte integer: the same layout as any other 16 byte primitive
   | .sysTime, .fixed k => k == 16
   | .fixed k, .sysTime => k == 16
   | _, _ => false
-def wireEqvL : WL → WL → Bool
+def wireEqvSL : WL → WL → Bool
   | .nil, .nil => true
-  | .cons t ts, .cons t' ts' => wireEqv t t' && wireEqvL ts ts'
+  | .cons t ts, .cons t' ts' => wireEqvS t t' && wireEqvSL ts ts'
   | _, _ => false
 /-- the reader may know variants appended after the writer's version -/
-def wireEqvPrefix : WL → WL → Bool
+def wireEqvSPrefix : WL → WL → Bool
   | .nil, _ => true
-  | .cons t ts, .cons t' ts' => wireEqv t t' && wireEqvPrefix ts ts'
+  | .cons t ts, .cons t' ts' => wireEqvS t t' && wireEqvSPrefix ts ts'
   | .cons _ _, .nil => false
 end
+
+/-- the two grammars describe the same bytes: compared after flattening products -/
+def wireEqv (a b : W) : Bool := wireEqvS (normW a) (normW b)
 
 end Sfv
